@@ -477,10 +477,12 @@ func (f *Frame) applyContract(ct *Contract, key string, names []string, sig *typ
 		t := env.trBool(r.Expr)
 		kind := "callpre"
 		if r.Panics {
-			if g.contract == nil || !g.contract.NoPanic {
-				continue
+			if g.contract != nil && g.contract.NoPanic {
+				g.oblige("nopanic", shortKey(key)+":"+r.Label, f.props(), f.fn, reach, t, r.Src, pos)
 			}
-			kind = "nopanic"
+			// the callee returns only if it did not panic
+			g.assume(implies(reach, t))
+			continue
 		}
 		g.oblige(kind, shortKey(key)+":"+r.Label, f.props(), f.fn, reach, t, r.Src, pos)
 	}
